@@ -308,8 +308,9 @@ MANIFEST = {
     "claim": "On every path of Actuator.run the ordered trace of phase anchors, with their canonical arguments, equals the "
              "statement's protocol (one iteration per index element; refresh, stamp, snapshot, before_bar, triggers, retire, "
              "open, on_bar, second refresh, update, snapshot, after_bar, status row, notify, clear); the recorder stamps then "
-             "logs; notify delivers the live buffer; the index choice, resampling (all six markets) and the history frame are "
-             "as stated.",
+             "logs; notify delivers the live buffer (also after initialize()); the index choice, resampling (all six markets), the "
+             "history frame (rows keyed by each status' own timestamp, one column block per market) are as stated; no object built "
+             "before a loop is shared by the iterations' callees; only @write_func-gated operations write.",
     "note": "Trusted: reference loop in sa/props/C05.py; exceptions inside the loop are not modelled. Not decided: sortedness "
             "of the data index; behaviour of user hooks.",
 }
